@@ -257,5 +257,7 @@ def run_check(mod, tier: str, seed: int, workers: Optional[int] = None) -> int:
     print(f"{prop} tier={tier} seed={seed} evaluations={total.evaluations} distinct={len(total.distinct)} "
           f"nontrivial={len(total.nontrivial)} states={len(total.states)} transitions={total.transitions} "
           f"outcomes={dict(total.outcomes.most_common(8))} reruns={total.reruns} caps={total.caps} "
-          f"violations={total.violation_count} wall={wall:.1f}s")
+          f"violations_new={sum(total.viol_counts[v['signature']] for v in new_violations)} "
+          f"violations_matching_known_findings={total.violation_count - sum(total.viol_counts[v['signature']] for v in new_violations)} "
+          f"wall={wall:.1f}s")
     return rc
